@@ -138,6 +138,10 @@ func RunTLC(o TLCOpts, onJSON func(raw []byte)) (TLCStats, error) {
 	cmd := exec.Command("java", args...)
 	cmd.Dir = dir
 	cmd.Env = os.Environ()
+	if _, set := o.Env["VERIF_CYC4"]; !set {
+		// the program families evaluate the cycle-accurate MVP-4/5 model for short runs (spec/ProgCommon)
+		cmd.Env = append(cmd.Env, "VERIF_CYC4=1")
+	}
 	for k, v := range o.Env {
 		cmd.Env = append(cmd.Env, k+"="+v)
 	}
